@@ -174,6 +174,8 @@ type reconWorld struct {
 	voc     *vocab
 	spy     *spyValidator
 	rec     *roles.Reconciler
+	// inactive: the target revision's desiredState is Inactive at the moment
+	inactive bool
 	crdSeen map[crd]bool
 	nextID  int
 }
@@ -354,6 +356,13 @@ func reconCase(i int, r *rand.Rand, baseline []rbacv1.PolicyRule) *result {
 	}
 	rw.q = q
 	rw.createRevision(r, t, q, true)
+	// a quarter of the targets start out as an INACTIVE revision (manual activation, or the older
+	// revision after an upgrade): the package manager records object references and permission
+	// requests for those too
+	if rr := rand.New(rand.NewPCG(uint64(i)+77, 0x1ac71fe)); rr.IntN(4) == 0 {
+		rw.setDesiredState(pkgv1.PackageRevisionInactive)
+		res.count("p2_targets_starting_inactive", 1)
+	}
 
 	nm := r.IntN(5)
 	for k := 0; k < nm; k++ {
@@ -417,7 +426,28 @@ func genPairWith(r *rand.Rand, v *vocab) (a, q []rbacv1.PolicyRule) {
 	return a, q
 }
 
+// setDesiredState is the package manager (de)activating the target revision.
+func (rw *reconWorld) setDesiredState(st pkgv1.PackageRevisionDesiredState) {
+	pr := &pkgv1.ProviderRevision{}
+	if err := rw.admin.Get(ctx, types.NamespacedName{Name: rw.target.Name}, pr); err != nil {
+		panic(err)
+	}
+	pr.Spec.DesiredState = st
+	if err := rw.admin.Update(ctx, pr); err != nil {
+		panic(err)
+	}
+	rw.inactive = st == pkgv1.PackageRevisionInactive
+}
+
 func (rw *reconWorld) mutate(r *rand.Rand) string {
+	if r.IntN(5) == 0 {
+		if rw.inactive {
+			rw.setDesiredState(pkgv1.PackageRevisionActive)
+			return "target-activated"
+		}
+		rw.setDesiredState(pkgv1.PackageRevisionInactive)
+		return "target-deactivated"
+	}
 	switch r.IntN(6) {
 	case 0, 1:
 		var q []rbacv1.PolicyRule
